@@ -27,18 +27,18 @@ type Frame struct {
 	entry    *State // snapshot at entry (for old())
 	deferred bool   // this frame is a deferred call run directly by rundefers / the panic path
 	// collected
-	exits   []*exitRec
-	panics  []*State
-	defers  []*ssa.Defer
-	loops   map[*ssa.BasicBlock]*loopInfo
-	names   map[string]ssa.Value // debug names -> unique value
-	ambig   map[string]bool
-	lets    map[string]bound
-	stack   []*ssa.Function
-	rc      *runCtx
-	back    map[[2]*ssa.BasicBlock]bool
-	dry     int
-	curLoop *loopInfo
+	exits        []*exitRec
+	panics       []*State
+	defers       []*ssa.Defer
+	loops        map[*ssa.BasicBlock]*loopInfo
+	names        map[string]ssa.Value // debug names -> unique value
+	ambig        map[string]bool
+	lets         map[string]bound
+	stack        []*ssa.Function
+	rc           *runCtx
+	back         map[[2]*ssa.BasicBlock]bool
+	dry          int
+	curLoop      *loopInfo
 	clauseIdents map[string]bool
 	evalPoint    *ssa.BasicBlock // where a per-iteration / call-site clause is evaluated
 }
@@ -742,13 +742,13 @@ func (fr *Frame) bindDebugNames() {
 }
 
 type runCtx struct {
-	back      map[[2]*ssa.BasicBlock]bool
-	in        map[*ssa.BasicBlock][]*State
-	edgeSt    map[[2]*ssa.BasicBlock]*State
-	region    map[*ssa.BasicBlock]bool // nil = whole function
-	dryHeader *ssa.BasicBlock
-	dryMods   map[string]bool
-	dryAll    bool
+	back        map[[2]*ssa.BasicBlock]bool
+	in          map[*ssa.BasicBlock][]*State
+	edgeSt      map[[2]*ssa.BasicBlock]*State
+	region      map[*ssa.BasicBlock]bool // nil = whole function
+	dryHeader   *ssa.BasicBlock
+	dryMods     map[string]bool
+	dryAll      bool
 	dryAllGhost bool
 }
 
